@@ -69,11 +69,13 @@ PROPS['C10'] = {
 }
 PROPS['C09'] = {
     'level': 'proof',
-    'vx': [{'unit': 'parse', 'functions': ["Message<'a> :: from_bytes", 'fingerprint']}],
+    'vx': [{'unit': 'parse', 'functions': ["Message<'a> :: from_bytes", 'fingerprint']},
+           {'unit': 'builder', 'functions': ['add_fingerprint', 'add_fingerprint_unchecked', 'theorem_sealed_fingerprint', 'lemma_last_tlv', 'Fingerprint :: new']}],
     'bx': ['c09'],
     'rule': 'Verus verification conditions of unit parse; fp_ok clause of wf_message.',
-    'proved': ['accepted buffer with FINGERPRINT at o: value == crc32(bytes[..o] with length field o+8-20) ^ 0x5354554e (fp_ok inside wf_message), and o+8 == len'],
-    'bounded': ['Fingerprint::compute == CRC-32/ISO-HDLC (BX vs bitwise reference, KX bounded)', 'builder side add_fingerprint (BX)', 'all single-bit flips / bursts / byte substitutions on a corpus (BX)'],
+    'proved': ['accepted buffer with FINGERPRINT at o: value == crc32(bytes[..o] with length field o+8-20) ^ 0x5354554e (fp_ok inside wf_message), and o+8 == len',
+               '(unit builder) builder side: add_fingerprint(_unchecked) appends a FINGERPRINT whose value is Fingerprint::compute of build() with the header length field increased by 8, xor 0x5354554e; theorem_sealed_fingerprint: the serialisation of the sealed builder then satisfies the parser-side fp_ok at that offset and ends there'],
+    'bounded': ['Fingerprint::compute == CRC-32/ISO-HDLC (BX vs bitwise reference, KX bounded)', 'build() == header + TLVs (assumed in unit builder: iterator sum; write_into, which it calls, is proved): BX', 'Fingerprint::to_raw / write_into (bytewise_xor! macro): Kani complete', 'all single-bit flips / bursts / byte substitutions on a corpus (BX)'],
     'trusted': _PARSE_TRUST,
 }
 PROPS['C01'] = {
@@ -145,7 +147,7 @@ PROPS['C08'] = {
 PROPS['C12'] = {
     'level': 'exploration',
     'trusted_extra': ['sub-slice write shims slice_copy_at / slice_fill_at / be_write_uN_at_slice (vx/shims/slices.rs; cross-checked by KX k_shim_slices), String::as_bytes/len = UTF-8 encoding (vx/shims/string.rs)'],
-    'vx': [{'unit': 'writers'}, {'unit': 'attrs', 'functions': ['to_raw', 'length', 'get_type', "RawAttribute<'a> :: new", 'padded']}, {'unit': 'builder', 'functions': ['write_into']}],
+    'vx': [{'unit': 'writers'}, {'unit': 'attrs', 'functions': ['to_raw', 'length', 'get_type', "RawAttribute<'a> :: new", 'padded']}, {'unit': 'builder', 'functions': ['write_into', 'into_owned', 'to_owned']}],
     'kx': ['k_shim_slices', 'k_shim_write_u16', 'k_shim_u128'] + ['k12_raw_attribute'] + [k for k in _ATTR_K if k not in ('k_check_len', 'k08_error_code_new', 'k08_unknown_attributes_small')],
     'bx': ['c12'],
     'rule': 'Kani harnesses: helper check_writers (in-place writer vs RFC layout vs raw conversion, 0xAA-filled oversize buffer, every shorter buffer) on every decodable value of the fixed-size types; BX for variable-length types and builders.',
@@ -153,8 +155,9 @@ PROPS['C12'] = {
                '(Verus) write_into_unchecked == RFC TLV layout for raw attributes, USERNAME, REALM, NONCE, SOFTWARE, ALTERNATE-DOMAIN, MESSAGE-INTEGRITY, MESSAGE-INTEGRITY-SHA256 (type invariant: multiple of 4), USERHASH, USE-CANDIDATE, PRIORITY, ICE-CONTROLLED, ICE-CONTROLLING, ERROR-CODE, UNKNOWN-ATTRIBUTES and PASSWORD-ALGORITHMS (lists of any length; helper writers write_into_data / write_data_into_unchecked / PasswordAlgorithmValue::write under contract); AttributeHeader::write_into, write_header(_unchecked)',
                '(Verus) RawAttribute::to_bytes == the same padded TLV; to_raw() of the string types carries the type and exactly the value bytes (unit attrs) - so in-place writing and raw conversion + serialisation give identical bytes',
                '(Kani, complete) fixed-size types incl. FINGERPRINT, XOR-MAPPED-ADDRESS, ALTERNATE-SERVER, PASSWORD-ALGORITHM: write_into == RFC layout == to_raw(); every shorter destination => TooSmall, destination untouched',
-               '(Verus, unit builder, attribute lists of ANY length) MessageBuilder::write_into: a destination shorter than byte_len() => Err(TooSmall{expected: byte_len, actual}) and nothing written; an exact or larger one receives header + TLVs, the length is reported and nothing beyond it is touched'],
-    'bounded': ['to_raw() of ERROR-CODE, UNKNOWN-ATTRIBUTES, PASSWORD-ALGORITHMS (Vec::with_capacity/extend/into_boxed_slice; their in-place writers are proved): BX', 'MessageBuilder build() == write_into() bytes, byte_len (iterator sum; assumed in VX), into_owned/clone (dyn AttributeWrite -> to_raw): BX'],
+               '(Verus, unit builder, attribute lists of ANY length) MessageBuilder::write_into: a destination shorter than byte_len() => Err(TooSmall{expected: byte_len, actual}) and nothing written; an exact or larger one receives header + TLVs, the length is reported and nothing beyond it is touched',
+               '(Verus, unit builder) borrowed -> owned: Data::into_owned, DataSlice::to_owned, RawAttribute::into_owned keep header and value bytes; AttrOrRaw::into_owned turns a typed attribute into a raw one of the same type and value (over the to_raw contract) - so the owned element serialises to the same TLV'],
+    'bounded': ['MessageBuilder::into_owned applies AttrOrRaw::into_owned to every element in order (into_iter().map().collect()), clone(): BX', 'to_raw() of ERROR-CODE, UNKNOWN-ATTRIBUTES, PASSWORD-ALGORITHMS (Vec::with_capacity/extend/into_boxed_slice; their in-place writers are proved): BX', 'MessageBuilder build() == write_into() bytes, byte_len (iterator sum; assumed in VX), into_owned/clone (dyn AttributeWrite -> to_raw): BX'],
     'trusted': _KX_TRUST,
 }
 
@@ -235,16 +238,18 @@ PROPS['C20'] = {
 _BX_TRUST = ['BX reference implementations (CRC-32, MD5, SHA-1, SHA-256, HMAC, TLV decoder/encoder, abstract agent) written for this harness from the RFCs / property statements; self-tested against published vectors and python hashlib/zlib at setup']
 PROPS['C03'] = {
     'level': 'exploration',
-    'vx': [{'unit': 'layout'}, {'unit': 'writers', 'functions': ['write_into', 'write_into_unchecked', 'to_bytes', 'write_header']}, {'unit': 'builder', 'functions': ['write_into']}],
+    'vx': [{'unit': 'layout'}, {'unit': 'writers', 'functions': ['write_into', 'write_into_unchecked', 'to_bytes', 'write_header']},
+           {'unit': 'builder', 'functions': ['write_into', 'into_owned', 'to_owned', 'add_fingerprint_unchecked', 'add_message_integrity_unchecked', 'integrity_bytes_from_message', 'theorem_sealed_fingerprint', 'theorem_sealed_sha1', 'theorem_sealed_sha256', 'lemma_last_tlv', 'lemma_layout_push', 'lemma_layout_split', 'lemma_write_step', 'lemma_write_room', ':: from', ':: new']}],
     'bx': ['c03'],
     'technique': 'Verus: spec-level round-trip theorem over the verified parser/writer contracts; bounded stand-in (execution of the real MessageBuilder against an independent serialiser + reference decoder) for the builder itself',
     'rule': 'see engines.bx[0].rule',
     'proved': ['(unit layout, spec level) theorem_layout_wellformed: header + concatenation of padded TLVs of any attribute list obeying the ordering rules (with FINGERPRINT values given by the CRC spec function) within the 16-bit length field is a well-formed message: length a multiple of four, header length field = length - 20, accepted by the verified parser contract (wf_message); lemma_layout_tail_ok for every tail',
                '(unit writers) every attribute writer used by the builder produces exactly tlv_bytes(type, value) (15 typed + raw in Verus, 4 in Kani; see C12)',
                '(unit builder) MessageBuilder::write_into, for attribute lists of ANY length: into an exact or larger destination it writes header20(type, body length, magic cookie, 96-bit transaction id) followed by the padded TLVs of the attributes in order and reports exactly that length (so length = 20 + a sum of multiples of four, header length field = length - 20), touching nothing beyond it; AttrOrRaw::write_into dispatches to the two writers; MessageType::write_into',
+               '(unit builder) sealing: add_fingerprint_unchecked / add_message_integrity_unchecked append exactly one attribute whose value is the CRC / HMAC of build() with the adjusted length field (over the assumed contracts of build(), the crc/hmac crates and make_hmac_key), and the composition theorems show the sealed serialisation satisfies fp_ok / mi_correct / mi256_correct; AttrOrRaw::into_owned, RawAttribute::into_owned, Data::into_owned preserve type and value bytes',
                '(in C02/C10) the parser accepts exactly the well-formed buffers and exposes them faithfully - so "parses back identically" reduces to "the builder concatenates header and attribute TLVs as specified" (now proved for write_into) plus the sealing values'],
     'bounded': ['byte_len (iterator map/sum) == 20 + padded TLV sizes: assumed in VX, BX compares it with build().len() and the independent serialiser',
-                'build() (vec![0; byte_len] then write_into; iterator sum), the sealing workers (HMAC/CRC over build()), into_owned/clone: BX random builder programs',
+                'build() (vec![0; byte_len] then write_into; iterator sum): assumed == header + TLVs in VX; MessageBuilder::into_owned/clone (iterator map/collect): BX random builder programs',
                 'typed value equality after the round trip for UNKNOWN-ATTRIBUTES (decoder uses chunks_exact) and constructors: BX'],
     'trusted': _BX_TRUST + ['AttributeWriteExt::write_into on dyn AttributeWrite / RawAttribute: assumed in unit builder with the contract proved in unit writers (same text); be_write_u128_at_slice / be_write_u16_slice shims (KX k_shim_u128)'],
 }
@@ -265,14 +270,16 @@ PROPS['C11'] = {
 }
 PROPS['C04'] = {
     'level': 'proof',
-    'vx': [{'unit': 'integrity'}, {'unit': 'parse', 'functions': ["Message<'a> :: from_bytes", 'next']}],
+    'vx': [{'unit': 'integrity'}, {'unit': 'parse', 'functions': ["Message<'a> :: from_bytes", 'next']},
+           {'unit': 'builder', 'functions': ['add_message_integrity', 'add_message_integrity_unchecked', 'integrity_bytes_from_message', 'theorem_sealed_sha1', 'theorem_sealed_sha256', 'lemma_last_tlv', 'MessageIntegrity :: new', 'MessageIntegritySha256 :: new']}],
     'bx': ['c04'],
     'rule': 'see engines.bx[0].rule',
     'proved': ['(unit integrity) Message::validate_integrity on every accepted message: no exposed integrity attribute => Err(MissingAttribute); an exposed MESSAGE-INTEGRITY-SHA256 is the attribute checked and Ok(Sha256) <=> its length is 16..32 step 4 and its value == HMAC-SHA256(key, message prefix with the length field set to the end of the attribute) truncated; otherwise Ok(Sha1) <=> the exposed MESSAGE-INTEGRITY is 20 bytes == HMAC-SHA1(key, prefix with rewritten length); the unreachable!() after the scan is unreachable; no overflow in the 16-bit length arithmetic',
                'MessageIntegrity / MessageIntegritySha256 decoders accept exactly (type, length) per RFC and expose the value bytes',
-               '(unit parse) every accepted buffer is tiled by TLVs and the iterator exposes the integrity attributes per the C10 rule'],
+               '(unit parse) every accepted buffer is tiled by TLVs and the iterator exposes the integrity attributes per the C10 rule',
+               '(unit builder) builder side: add_message_integrity(_unchecked) appends MESSAGE-INTEGRITY = HMAC-SHA1(key, build() with the length field +24) resp. MESSAGE-INTEGRITY-SHA256 = HMAC-SHA256(key, build() with the length field +36), key = make_hmac_key(credentials); theorem_sealed_sha1/sha256: the serialisation of the sealed builder satisfies exactly the predicate (mi_correct / mi256_correct) under which validate_integrity is proved to answer Ok'],
     'bounded': ['raw_attribute (iterator adaptor find) returns the first exposed attribute of the type: assumed in VX, checked by BX (C02:lookup-first-match)',
-                'key derivation make_hmac_key (password / MD5(user:realm:password)), agreement of the hmac/sha crates with RFC 2104, tamper evidence on concrete messages, builder-side sealing: BX against independent HMAC-SHA1/SHA256/MD5'],
+                'key derivation make_hmac_key (password / MD5(user:realm:password)), agreement of the hmac/sha crates with RFC 2104, tamper evidence on concrete messages, build() == header + TLVs (assumed in unit builder): BX against independent HMAC-SHA1/SHA256/MD5'],
     'trusted': _BX_TRUST + ['hmac / sha1 / sha2 / md-5 crates (their agreement with the independent implementations is checked on every BX case, not proved)'],
 }
 for _p in ('C01', 'C02', 'C05', 'C06', 'C07', 'C08', 'C09', 'C10', 'C12', 'C13', 'C14', 'C15', 'C16', 'C17', 'C18', 'C19', 'C20'):
